@@ -28,6 +28,12 @@ package stateproof
 //       form is a conservative rounding of it);
 //   (5) numReveals failing for admissible p < sw is allowed (approximation gap, MaxReveals);
 //       counted, not judged.
+// Boundary seeking (added after the seeded change C39-B was missed): for every signed weight
+// of W and every target, P -> numReveals(sw, P, target) is a step function of lnProvenWeight;
+// all its steps in [0, 2^22] are located by bisection (every reachable count 1..MaxReveals
+// and the first refusal), and oracle (2)/(3) runs just below and at each step, plus just
+// above and with EVERY smaller count for counts >= MaxReveals-2 (so instances with exactly
+// MaxReveals-1, MaxReveals reveals and the first refused one are always included).
 // Coins: for 64 signed weights (those with the highest rejection probability, i.e. just
 // above 2^63, 2^62, ..., plus small and decimal ones) x 8 seeds, the first 256 coins of
 // getNextCoin are all < signedWeight, and a second generator over the same seed yields the
@@ -46,6 +52,9 @@ package stateproof
 //      rejecting + reducing
 //   M3 weights.go getSubExpressions uses w = d*T instead of d*(T-1): prover and verifier
 //      still agree with each other; only the independent formula (2)/(3) notices
+//   S1 (seeded C39-B) verifyWeights refuses `numOfReveals >= MaxReveals`: MISSED by the grid
+//      (no grid pair needs exactly 640 reveals), DETECTED by the boundary search
+//   S2 (seeded C38-A) numReveals checks the bound before the +1: DETECTED (grid and boundary)
 //   M4 weights.go verifyWeights compares with `<= 0` shifted by one reveal
 //      (`Mul(bigInt(numOfReveals), lhs)` -> numOfReveals+1): verifier accepts one reveal
 //      too few -> (3)
@@ -89,6 +98,80 @@ func c38holds(sw, lnProven, r, target uint64) bool {
 	rhs.Add(rhs, new(big.Int).Mul(R, new(big.Int).SetUint64(lnProven)))
 	rhs.Mul(rhs, Y)
 	return lhs.Cmp(rhs) >= 0
+}
+
+const c38inf = uint64(1) << 62 // "refused" in the breakpoint search
+
+// c38point runs the success-side oracle on one (signedWeight, lnProvenWeight, target) given
+// directly by its lnProvenWeight (what MkVerifierWithLnProvenWeight / the ledger hand to the
+// verifier). full = also compare verifyWeights with the independent inequality for EVERY
+// smaller reveal count (otherwise only for r-1).
+func c38point(r *ve.Run, sw, ln, target uint64, full bool, origin string) (nr uint64, ok bool) {
+	rep := map[string]any{"engine": "enum", "signedWeight": sw, "lnProvenWeight": ln, "strengthTarget": target, "origin": origin}
+	nr, err := numReveals(sw, ln, target)
+	r.Eval()
+	if err != nil {
+		return 0, false
+	}
+	if nr > MaxReveals {
+		r.Report("C38:too-many-reveals", fmt.Sprintf("numReveals(sw=%d, lnProvenWeight=%d, target=%d) = %d > MaxReveals [%s]", sw, ln, target, nr, origin), rep)
+	}
+	if !c38holds(sw, ln, nr, target) {
+		r.Report("C38:prover-violates-inequality", fmt.Sprintf("numReveals(sw=%d, lnProvenWeight=%d, target=%d) = %d does not satisfy the documented inequality [%s]", sw, ln, target, nr, origin), rep)
+	}
+	r.Eval()
+	if err := verifyWeights(sw, ln, nr, target); err != nil {
+		r.Report("C38:verifier-rejects-prover", fmt.Sprintf("verifyWeights(sw=%d, lnProvenWeight=%d, reveals=%d, target=%d) = %v for the prover's own reveal count [%s]", sw, ln, nr, target, err, origin), rep)
+	}
+	from := uint64(0)
+	if !full && nr > 0 {
+		from = nr - 1
+	}
+	for x := from; x < nr; x++ {
+		want := c38holds(sw, ln, x, target)
+		got := verifyWeights(sw, ln, x, target) == nil
+		r.Eval()
+		if got != want {
+			key := "C38:verifier-accepts-violating-count"
+			if want {
+				key = "C38:verifier-rejects-satisfying-count"
+			}
+			r.Report(key, fmt.Sprintf("verifyWeights(sw=%d, lnProvenWeight=%d, reveals=%d, target=%d) accepted=%v but the documented inequality evaluates to %v (prover chose %d) [%s]", sw, ln, x, target, got, want, nr, origin), rep)
+			break
+		}
+	}
+	return nr, true
+}
+
+// c38breakpoints returns every lnProvenWeight P in (0, hi] at which numReveals(sw, P, target)
+// changes its value (refusal counts as one value), found by bisection: the reveal count is a
+// step function of P, non-decreasing until the prover refuses.
+func c38breakpoints(r *ve.Run, sw, target, hi uint64) (bps []uint64, atZero uint64) {
+	f := func(P uint64) uint64 {
+		nr, err := numReveals(sw, P, target)
+		r.Eval()
+		if err != nil {
+			return c38inf
+		}
+		return nr
+	}
+	var solve func(lo, hi, flo, fhi uint64)
+	solve = func(lo, hi, flo, fhi uint64) {
+		if flo == fhi {
+			return
+		}
+		if hi == lo+1 {
+			bps = append(bps, hi)
+			return
+		}
+		mid := lo + (hi-lo)/2
+		fm := f(mid)
+		solve(lo, mid, flo, fm)
+		solve(mid, hi, fm, fhi)
+	}
+	atZero = f(0)
+	solve(0, hi, atZero, f(hi))
+	return bps, atZero
 }
 
 func c38weights(thorough bool) []uint64 {
@@ -260,6 +343,92 @@ func TestVerif_C38(t *testing.T) {
 		}
 	})
 
+	// ---- boundary seeking: every crossing of the reveal count, up to MaxReveals and the
+	// first refusal. For every signed weight of the grid and every strength target the step
+	// function P -> numReveals(sw, P, target) is resolved completely by bisection over
+	// lnProvenWeight in [0, 2^22] (2^16 * ln 2^64 < 2^22): every P at which the count changes
+	// (k-1 -> k for every reachable k <= MaxReveals, and the last accepted -> refused step).
+	// The oracle runs just below and at every crossing, additionally just above for counts
+	// >= MaxReveals-2 and for the refusal step; for counts >= MaxReveals-2 with the full
+	// "every smaller count" comparison.
+	type bcase struct{ sw, target uint64 }
+	var bcases []bcase
+	for _, sw := range W {
+		if sw == 0 {
+			continue
+		}
+		for _, target := range targets {
+			bcases = append(bcases, bcase{sw, target})
+		}
+	}
+	doneB := r.ParallelFor(len(bcases), func(i int) {
+		sw, target := bcases[i].sw, bcases[i].target
+		bps, _ := c38breakpoints(r, sw, target, 1<<22)
+		pts := map[uint64]struct{}{}
+		var n640, n639, nRefusal int64
+		for _, b := range bps {
+			pts[b-1] = struct{}{}
+			pts[b] = struct{}{}
+			nr, err := numReveals(sw, b, target)
+			if err != nil || nr+2 >= MaxReveals {
+				pts[b+1] = struct{}{}
+			}
+			if err != nil {
+				nRefusal++
+			}
+		}
+		var sorted []uint64
+		for P := range pts {
+			sorted = append(sorted, P)
+		}
+		sort.Slice(sorted, func(a, b int) bool { return sorted[a] < sorted[b] })
+		seen := map[uint64]struct{}{}
+		for _, P := range sorted {
+			nrPeek, errPeek := numReveals(sw, P, target)
+			full := errPeek == nil && nrPeek+2 >= MaxReveals
+			nr, ok := c38point(r, sw, P, target, full, "crossing")
+			if !ok {
+				continue
+			}
+			seen[nr] = struct{}{}
+			switch nr {
+			case MaxReveals:
+				n640++
+			case MaxReveals - 1:
+				n639++
+			}
+		}
+		r.Add("n:boundary_crossings", int64(len(bps)))
+		r.Add("n:boundary_points", int64(len(sorted)))
+		r.Add("n:boundary_points_r=MaxReveals", n640)
+		r.Add("n:boundary_points_r=MaxReveals-1", n639)
+		r.Add("n:boundary_refusal_steps", nRefusal)
+		if _, ok := seen[MaxReveals]; ok {
+			r.Add("n:boundary_cases_reaching_MaxReveals", 1)
+			r.Class(fmt.Sprintf("boundary/t%d/reaches-MaxReveals", target))
+		} else {
+			r.Class(fmt.Sprintf("boundary/t%d/max-below-MaxReveals", target))
+		}
+		r.Add("n:boundary_distinct_counts_seen", int64(len(seen)))
+		if i%271 == 7 {
+			r.Sample(map[string]any{"boundary": true, "signedWeight": sw, "strengthTarget": target, "crossings": len(bps), "distinct_reveal_counts": len(seen), "points_with_640_reveals": n640})
+		}
+	})
+	// the seeders' examples, as fixed regression points
+	var regression []map[string]any
+	for _, ex := range []struct {
+		sw, ln, target uint64
+		p              uint64
+	}{{1<<40 - 1, 1798815, 256, 0}, {3000000000000000, 2317383, 256, 0}, {1451025484914, 0, 256, 1 << 40}} {
+		ln := ex.ln
+		if ex.p != 0 {
+			ln, _ = LnIntApproximation(ex.p)
+		}
+		nr, ok := c38point(r, ex.sw, ln, ex.target, true, "seeded-example")
+		regression = append(regression, map[string]any{"signedWeight": ex.sw, "lnProvenWeight": ln, "strengthTarget": ex.target, "numReveals": nr, "prover_ok": ok})
+	}
+	r.Set("regression_points", regression)
+
 	// ---- coins
 	coinW := c38coinWeights(W)
 	const nSeeds, nCoins = 8, 256
@@ -312,8 +481,8 @@ func TestVerif_C38(t *testing.T) {
 	r.Set("coin_weights", len(coinW))
 	r.Assume("LnIntApproximation's float64 rounding is part of the trusted base: lnProvenWeight is whatever it returns for p")
 	r.Assume("the inequality is taken from the doc comment above verifyWeights (b=16, T=45427); oracle (4) checks its real-number meaning r*ln(sw/p) >= target*ln2 with float64")
-	cov := ve.Coverage{Exhaustive: done == int64(len(pairs)) && doneCoins == int64(len(cws)),
-		Rule: fmt.Sprintf("every (signedWeight, provenWeight) in W x W, |W|=%d boundary weights (2^k, 2^k+-1, 3*2^k, 10^n, 2^64-1), x strengthTarget in {1,64,128,256,65536}: numReveals, then verifyWeights for the chosen count and for EVERY smaller count against an independent math/big evaluation of the documented inequality; inadmissible provenWeight >= signedWeight must be refused by both; %d signed weights x %d seeds x first %d coins < signedWeight", nW, len(coinW), nSeeds, nCoins)}
+	cov := ve.Coverage{Exhaustive: done == int64(len(pairs)) && doneCoins == int64(len(cws)) && doneB == int64(len(bcases)),
+		Rule: fmt.Sprintf("every (signedWeight, provenWeight) in W x W, |W|=%d boundary weights (2^k, 2^k+-1, 3*2^k, 10^n, 2^64-1), x strengthTarget in {1,64,128,256,65536}: numReveals, then verifyWeights for the chosen count and for EVERY smaller count against an independent math/big evaluation of the documented inequality; inadmissible provenWeight >= signedWeight must be refused by both; boundary seeking: for every signed weight x target the step function lnProvenWeight -> numReveals is resolved by bisection over [0,2^22] and the same oracle runs just below/at every crossing (and above, with all smaller counts, for counts >= MaxReveals-2 and the refusal step); %d signed weights x %d seeds x first %d coins < signedWeight", nW, len(coinW), nSeeds, nCoins)}
 	if r.Finish(cov) > 0 {
 		t.Fatal("violations")
 	}
